@@ -218,7 +218,7 @@ func (f *Frame) assume(t T) {
 func (f *Frame) curPath() T {
 	if len(f.pathAcc) > 0 {
 		all := append([]T{f.path}, f.pathAcc...)
-		f.path = f.enc.define(f.sym(fmt.Sprintf("P%d", f.cur.Index)), And(all...))
+		f.path = f.enc.definePath(f.sym(fmt.Sprintf("P%d", f.cur.Index)), And(all...))
 		f.pathAcc = nil
 	}
 	return f.path
@@ -551,7 +551,7 @@ func (f *Frame) finishBlock(b *ssa.BasicBlock) {
 	f.outSt[b] = f.st
 	f.outPath[b] = f.curPath()
 	for i, s := range b.Succs {
-		ep := f.enc.define(f.sym(fmt.Sprintf("E%d_%d", b.Index, s.Index)), And(f.outPath[b], f.edgeCond(b, i)))
+		ep := f.enc.definePath(f.sym(fmt.Sprintf("E%d_%d", b.Index, s.Index)), And(f.outPath[b], f.edgeCond(b, i)))
 		f.edgePred[[2]int{b.Index, s.Index}] = ep
 		if s.Dominates(b) {
 			f.backEdge(b, s, ep)
@@ -621,7 +621,7 @@ func (f *Frame) enterBlock(b *ssa.BasicBlock) bool {
 	for _, p := range preds {
 		eps = append(eps, f.edgePred[[2]int{p.Index, b.Index}])
 	}
-	f.path = f.enc.define(f.sym(fmt.Sprintf("B%d", b.Index)), Or(eps...))
+	f.path = f.enc.definePath(f.sym(fmt.Sprintf("B%d", b.Index)), Or(eps...))
 	f.st = f.mergeStates(preds, b)
 	for k, v := range f.st {
 		if k != "alloc" {
@@ -739,6 +739,9 @@ func (f *Frame) loopHeader(li *loopInfo, preds []*ssa.BasicBlock) {
 	}
 	li.stAtHeader = f.st.clone()
 	li.allocAtHdr = f.alloc()
+	for phi, sym := range li.phiSyms {
+		f.loadFactsB(sym, phi.Type(), li.allocAtHdr)
+	}
 	for k, v := range f.st {
 		if k != "alloc" && strings.Contains(v.S, "@L") {
 			f.enc.verAlloc[v.S] = f.alloc()
